@@ -101,8 +101,9 @@ Proof. intros xs. split; [apply P_C11.C11_ascending|apply P_C12.C12_sp_ascending
 
 (** Every clause of the property is now a theorem about the model. Between two reported indices the counter is the linear
     interpolant (np.interp), so it is NOT constant there; what is proved is: the values at the reported indices, monotonicity
-    everywhere, and constancy after the last reported index. Still decided by the correspondence only: that the declarative
-    model ([peaks] as a filter over indices, [interp_pts]) is what the ediff1d/where/take pipeline and np.interp compute. *)
+    everywhere, and constancy after the last reported index. That the declarative model ([peaks] as a filter over indices) is what the
+    ediff1d/where/take pipeline computes is proved in props/Prop_C11_pipeline.v; only np.interp = [interp_pts] and the reading
+    of the statement-by-statement transcription (model/M_peaks_pipeline.v) against the source remain with the correspondence. *)
 
 Example C11_nonvacuous : peaks [1; 1; 2; 1]%R = [0; 2; 3]%nat.
 Proof.
